@@ -15,6 +15,7 @@ package main
 import (
 	"fmt"
 	"strconv"
+	"strings"
 	"time"
 
 	"github.com/paulmach/osm"
@@ -34,7 +35,25 @@ var strTab = []sv{
 	{`"ctl \u0007 \u000b \u007f \u0001 end"`, "ctl \a \v \x7f \x01 end"},
 	// a non-printable code point outside the BMP and the JS line separators
 	{`"tagchar \udb40\udc01 ls \u2028 ps \u2029"`, "tagchar \U000E0001 ls \u2028 ps \u2029"},
+	// boundary audit: the empty string (a key that is present and empty), blanks only, NUL, text that
+	// looks like a JSON literal or a number, the replacement character, a long string
+	{`""`, ""},
+	{`" "`, " "},
+	{`"nul \u0000 end"`, "nul \x00 end"},
+	{`"null"`, "null"},
+	{`"0123"`, "0123"},
+	{`"repl \ufffd \u00e9"`, "repl \uFFFD é"},
+	// longer than a 64-byte scratch buffer (the 6 KB string is longSV below)
+	{`"seventy characters: 3456789 123456789 123456789 123456789 123456789 1234567890"`, "seventy characters: 3456789 123456789 123456789 123456789 123456789 1234567890"},
 }
+
+// longText: about 6 KB, longer than any scratch buffer of a few hundred bytes or 4 KiB; no character
+// of it needs escaping, so the JSON text is the string between quotes.
+var longText = strings.Repeat("long é text ", 500)
+
+// longSV is drawn by every second string field of an element whose Salt is saltRange itself (one
+// past the ordinary range; edge families only, it makes documents 20 times larger).
+var longSV = sv{`"` + longText + `"`, longText}
 
 type fv struct {
 	J string
@@ -48,6 +67,20 @@ var fltTab = []fv{
 	{"179.9999999", 179.9999999},
 	{"-90", -90},
 	{"12.5E0", 12.5},
+	// boundary audit: zero (present and zero), the limits of latitude and longitude, 7, 8 and 17
+	// significant decimals, exponent forms, magnitudes at which Go switches to exponent output
+	// (< 1e-6, >= 1e21), the largest and smallest finite magnitudes
+	{"0", 0},
+	{"180", 180},
+	{"-180", -180},
+	{"90", 90},
+	{"0.1234567", 0.1234567},
+	{"-0.12345678", -0.12345678},
+	{"0.30000000000000004", 0.30000000000000004},
+	{"1E+2", 100},
+	{"1e21", 1e21},
+	{"1.7976931348623157e308", 1.7976931348623157e308},
+	{"5e-324", 5e-324},
 }
 
 type tv struct {
@@ -59,10 +92,32 @@ var timTab = []tv{
 	{`"2012-03-04T05:06:07Z"`, time.Date(2012, 3, 4, 5, 6, 7, 0, time.UTC)},
 	{`"2020-12-31T23:59:59.5+01:00"`, time.Date(2020, 12, 31, 23, 59, 59, 500000000, time.FixedZone("", 3600))},
 	{`"1999-01-01T00:00:00Z"`, time.Date(1999, 1, 1, 0, 0, 0, 0, time.UTC)},
+	// boundary audit: Unix time 0, the zero time.Time written out (present and zero), the last
+	// nanosecond of the domain, an instant after 2262-04-11 (beyond int64 nanoseconds), before 1970
+	// with a negative zone, nanoseconds with a quarter-hour zone, +00:00 instead of Z on a leap day
+	{`"1970-01-01T00:00:00Z"`, time.Date(1970, 1, 1, 0, 0, 0, 0, time.UTC)},
+	{`"0001-01-01T00:00:00Z"`, time.Time{}},
+	{`"9999-12-31T23:59:59.999999999Z"`, time.Date(9999, 12, 31, 23, 59, 59, 999999999, time.UTC)},
+	{`"2262-04-12T00:00:00Z"`, time.Date(2262, 4, 12, 0, 0, 0, 0, time.UTC)},
+	{`"1969-07-20T15:17:40-05:00"`, time.Date(1969, 7, 20, 15, 17, 40, 0, time.FixedZone("", -5*3600))},
+	{`"2012-09-12T15:15:03.123456789+05:45"`, time.Date(2012, 9, 12, 15, 15, 3, 123456789, time.FixedZone("", 5*3600+45*60))},
+	{`"2016-02-29T12:00:00+00:00"`, time.Date(2016, 2, 29, 12, 0, 0, 0, time.UTC)},
 }
 
+// numTab: versions, user ids, changeset ids and counts. Boundary audit: 0 (present and zero), 1, -1,
+// 127/128, 2^31-1, 2^31, 2^32, 2^53+1 (not a float64), 2^63-1. The struct fields are int or int64;
+// the harness runs on a 64-bit platform (checked in main).
+var numTab = []int64{3, 0, 1, 70, 127, 128, 2147483647, 2147483648, 4000000000, 4294967296, 9007199254740993, 9223372036854775807, -1}
+
+// saltRange: Salt runs over 0..saltRange-1; it is at least as long as every table, so that a field
+// that is present in every Salt sees every value of its table.
+const saltRange = 17
+
 // ids beyond 2^53 check that ids are never routed through float64.
-var idTab = []int64{1, 4294967297, 9007199254740993, -3}
+// Boundary audit: 0, -1, 2^31, 2^40-1 / 2^40 / 2^44 (ref bits of the packed osm.FeatureID /
+// osm.ElementID, which JSON must not route ids through), both ends of int64.
+var idTab = []int64{1, 4294967297, 9007199254740993, -3, 0, 2147483648, 1099511627775, 1099511627776,
+	17592186044416, 9223372036854775807, -9223372036854775808, -1}
 
 // Kinds of elements.
 const (
@@ -89,11 +144,16 @@ var kindTitle = [...]string{"Node", "Way", "Relation", "Changeset", "Note", "Use
 // 9 created_at.
 //
 // Vis: 0 absent (false), 1 true, 2 explicit false (documents only).
-// Tags: 0 absent/nil, 1 one tag, 2 three tags, 3 empty object / empty non-nil.
+// Tags: 0 absent/nil, 1 one tag, 2 three tags, 3 empty object / empty non-nil;
+// edge families only: 4 boundary keys and values (empty value, empty key, keys
+// that differ in case only, blanks), 5 forty tags in no particular order.
 // Sub: way nodes / relation members: 0 absent/nil, 1 empty, 2 two plain,
-// 3 three rich (annotated in the value direction); changeset discussion:
-// 0 nil, 1 no comments, 2 two comments; note status: 0 none, 1 open, 2 closed;
-// Sub2: changeset change 0/1; note comments 0 nil, 1 empty, 2 two.
+// 3 three rich (annotated in the value direction); edge families only: 4 a
+// single one, 5 boundary ids / repeated entries, 6 many (2000 way nodes, 300
+// members); changeset discussion: 0 nil, 1 no comments, 2 two comments, edge: 3
+// one comment of zero values; note status: 0 none, 1 open, 2 closed, edge: 3
+// "hidden"; Sub2: changeset change 0/1; note comments 0 nil, 1 empty, 2 two,
+// edge: 3 one comment of the third action with zero / null dates.
 // Order and Unk only matter for documents: key order and unknown keys.
 type Elem struct {
 	Kind  int
@@ -106,12 +166,31 @@ type Elem struct {
 	Salt  int
 	Order int
 	Unk   int
+	Zero  int // documents only: 1 = absent optional scalars are written with their zero value
 }
 
 func (e Elem) has(bit uint) bool { return e.Mask&(1<<bit) != 0 }
-func (e Elem) s(k int) sv        { return strTab[(e.Salt+k)%len(strTab)] }
-func (e Elem) f(k int) fv        { return fltTab[(e.Salt+k)%len(fltTab)] }
-func (e Elem) t(k int) tv        { return timTab[(e.Salt+k)%len(timTab)] }
+func (e Elem) s(k int) sv {
+	if e.Salt == saltRange && k%2 == 0 {
+		return longSV
+	}
+	return strTab[(e.Salt+k)%len(strTab)]
+}
+func (e Elem) f(k int) fv    { return fltTab[(e.Salt+k)%len(fltTab)] }
+func (e Elem) t(k int) tv    { return timTab[(e.Salt+k)%len(timTab)] }
+func (e Elem) n(k int) int64 { return numTab[(e.Salt+k)%len(numTab)] }
+
+// z: documents with Zero == 1 write every absent optional scalar explicitly with its zero value
+// ("user":"", "uid":0, "open":false, "timestamp":"0001-01-01T00:00:00Z", ...): present-but-zero has to
+// decode to the same value as absent.
+func (e Elem) z(kvs []kv, key, zero string) []kv {
+	if e.Zero == 1 {
+		return append(kvs, kv{key, zero})
+	}
+	return kvs
+}
+
+const zeroTimeJSON = `"0001-01-01T00:00:00Z"`
 
 // optionalCount is used by the non-triviality rule.
 func (e Elem) optionalCount() int {
@@ -169,6 +248,23 @@ func buildTags(e Elem) (osm.Tags, []kv) {
 			[]kv{{"tags", "{" + `"zebra":` + a.J + "," + k.J + ":" + b.J + "," + `"amenity":` + c.J + "}"}}
 	case 3:
 		return osm.Tags{}, []kv{{"tags", "{}"}}
+	case 4:
+		v := e.s(5)
+		return osm.Tags{{Key: "name", Value: ""}, {Key: "", Value: "empty key"}, {Key: "Name", Value: "upper"}, {Key: "NAME", Value: v.G},
+				{Key: " ", Value: " "}, {Key: "name:de", Value: "0"}, {Key: "k=v", Value: "a=b;c"}, {Key: "ünï", Value: "null"}},
+			[]kv{{"tags", `{"name":"","":"empty key","Name":"upper","NAME":` + v.J + `," ":" ","name:de":"0","k=v":"a=b;c","ünï":"null"}`}}
+	case 5:
+		// 40 keys, written in an order that is neither sorted nor reversed
+		var ts osm.Tags
+		var items []string
+		for i := 0; i < 40; i++ {
+			j := (i*17 + 5) % 40
+			k := "key" + strconv.Itoa(j/10) + strconv.Itoa(j%10)
+			v := strTab[j%6]
+			ts = append(ts, osm.Tag{Key: k, Value: v.G})
+			items = append(items, `"`+k+`":`+v.J)
+		}
+		return ts, []kv{{"tags", "{" + strings.Join(items, ",") + "}"}}
 	}
 	return nil, nil
 }
@@ -191,23 +287,33 @@ func buildMeta(e Elem) (m meta, pre []kv, post []kv) {
 		t := e.t(0)
 		m.Timestamp = t.G
 		pre = append(pre, kv{"timestamp", t.J})
+	} else {
+		pre = e.z(pre, "timestamp", zeroTimeJSON)
 	}
 	if e.has(2) {
-		m.Version = 3 + e.Salt
+		m.Version = int(e.n(0))
 		pre = append(pre, kv{"version", itoa(int64(m.Version))})
+	} else {
+		pre = e.z(pre, "version", "0")
 	}
 	if e.has(3) {
-		m.Changeset = osm.ChangesetID(4000000000 + int64(e.Salt))
+		m.Changeset = osm.ChangesetID(e.n(8))
 		pre = append(pre, kv{"changeset", itoa(int64(m.Changeset))})
+	} else {
+		pre = e.z(pre, "changeset", "0")
 	}
 	if e.has(0) {
 		u := e.s(0)
 		m.User = u.G
 		pre = append(pre, kv{"user", u.J})
+	} else {
+		pre = e.z(pre, "user", `""`)
 	}
 	if e.has(1) {
-		m.UID = osm.UserID(70 + e.Salt)
+		m.UID = osm.UserID(e.n(3))
 		pre = append(pre, kv{"uid", itoa(int64(m.UID))})
+	} else {
+		pre = e.z(pre, "uid", "0")
 	}
 	switch e.Vis {
 	case 1:
@@ -235,12 +341,12 @@ func buildUpdates(e Elem) (osm.Updates, []kv) {
 	t0, t1 := e.t(1), e.t(2)
 	la, lo := e.f(2), e.f(3)
 	us := osm.Updates{
-		{Index: 0, Version: 2, Timestamp: t0.G, ChangesetID: 55, Lat: la.G, Lon: lo.G},
-		{Index: 1, Version: 3, Timestamp: t1.G, Reverse: true},
+		{Index: 0, Version: 2, Timestamp: t0.G, ChangesetID: osm.ChangesetID(e.n(5)), Lat: la.G, Lon: lo.G},
+		{Index: int(e.n(6)), Version: int(e.n(7)), Timestamp: t1.G, Reverse: true},
 	}
 	txt := arr([]string{
-		obj(kv{"index", "0"}, kv{"version", "2"}, kv{"timestamp", t0.J}, kv{"changeset", "55"}, kv{"lat", la.J}, kv{"lon", lo.J}),
-		obj(kv{"reverse", "true"}, kv{"timestamp", t1.J}, kv{"version", "3"}, kv{"index", "1"}),
+		obj(kv{"index", "0"}, kv{"version", "2"}, kv{"timestamp", t0.J}, kv{"changeset", itoa(e.n(5))}, kv{"lat", la.J}, kv{"lon", lo.J}),
+		obj(kv{"reverse", "true"}, kv{"timestamp", t1.J}, kv{"version", itoa(e.n(7))}, kv{"index", itoa(e.n(6))}),
 	})
 	return us, []kv{{"updates", txt}}
 }
@@ -275,6 +381,31 @@ func buildWayNodes(e Elem, sub int, annot bool) (osm.WayNodes, []kv) {
 			}
 		}
 		return wn, []kv{{"nodes", "[9007199254740993,-3," + itoa(int64(20+e.Salt)) + "]"}}
+	case 4:
+		id := idTab[e.Salt%len(idTab)]
+		return osm.WayNodes{{ID: osm.NodeID(id)}}, []kv{{"nodes", "[" + itoa(id) + "]"}}
+	case 5:
+		// a closed ring over boundary ids: zero, both ends of int64, 2^40, an id twice in a row
+		wn := osm.WayNodes{{ID: 0}, {ID: 9223372036854775807}, {ID: -9223372036854775808}, {ID: 1099511627776}, {ID: 1099511627776}, {ID: -1}, {ID: 0}}
+		if annot {
+			for i := range wn {
+				wn[i].Version = int(numTab[i%len(numTab)])
+				wn[i].ChangesetID = osm.ChangesetID(numTab[(i+3)%len(numTab)])
+				wn[i].Lat = fltTab[(i+6)%len(fltTab)].G
+				wn[i].Lon = fltTab[(i+7)%len(fltTab)].G
+			}
+		}
+		return wn, []kv{{"nodes", "[0,9223372036854775807,-9223372036854775808,1099511627776,1099511627776,-1,0]"}}
+	case 6:
+		// the API limit of 2000 nodes per way, first = last
+		wn := make(osm.WayNodes, 2000)
+		items := make([]string, 2000)
+		for i := range wn {
+			id := 5000000000 + int64(i%1999)*7
+			wn[i].ID = osm.NodeID(id)
+			items[i] = itoa(id)
+		}
+		return wn, []kv{{"nodes", arr(items)}}
 	}
 	return nil, nil
 }
@@ -304,6 +435,38 @@ func buildMembers(e Elem, annot bool) (osm.Members, []kv) {
 			`{"role":"outer","ref":-8,"orientation":-1,"nodes":` + wk[0].V + geom + `,"type":"way"},` +
 			`{"type":"relation","ref":9,"role":""}]`
 		return ms, []kv{{"members", txt}}
+	case 4:
+		ref := idTab[e.Salt%len(idTab)]
+		return osm.Members{{Type: osm.TypeRelation, Ref: ref, Role: ""}}, []kv{{"members", `[{"type":"relation","ref":` + itoa(ref) + `,"role":""}]`}}
+	case 5:
+		// boundary refs, the same member twice, a member referring to the relation's own id, the
+		// optional member annotations at boundary values, a way member with the boundary ring
+		r := e.s(4)
+		wn, wk := buildWayNodes(e, 5, annot)
+		ms := osm.Members{
+			{Type: osm.TypeNode, Ref: 0, Role: r.G, Version: int(e.n(1)), ChangesetID: osm.ChangesetID(e.n(2)), Lat: e.f(6).G, Lon: e.f(7).G},
+			{Type: osm.TypeWay, Ref: 9223372036854775807, Role: "inner", Orientation: 1, Nodes: wn},
+			{Type: osm.TypeWay, Ref: 9223372036854775807, Role: "inner", Orientation: 1, Nodes: wn},
+			{Type: osm.TypeRelation, Ref: -9223372036854775808, Role: " "},
+			{Type: osm.TypeRelation, Ref: e.ID, Role: "self"},
+			{Type: osm.TypeNode, Ref: 1099511627776, Role: ""},
+		}
+		way := `{"type":"way","ref":9223372036854775807,"role":"inner","orientation":1,"nodes":` + wk[0].V + `}`
+		txt := `[{"type":"node","ref":0,"role":` + r.J + `,"version":` + itoa(e.n(1)) + `,"changeset":` + itoa(e.n(2)) + `,"lat":` + e.f(6).J + `,"lon":` + e.f(7).J + `},` +
+			way + `,` + way + `,{"type":"relation","ref":-9223372036854775808,"role":" "},` +
+			`{"role":"self","type":"relation","ref":` + itoa(e.ID) + `},{"type":"node","ref":1099511627776,"role":""}]`
+		return ms, []kv{{"members", txt}}
+	case 6:
+		ms := make(osm.Members, 300)
+		items := make([]string, 300)
+		types := []osm.Type{osm.TypeNode, osm.TypeWay, osm.TypeRelation}
+		for i := range ms {
+			ref := 6000000000 + int64(i)*3
+			role := strTab[i%6]
+			ms[i] = osm.Member{Type: types[i%3], Ref: ref, Role: role.G}
+			items[i] = `{"type":"` + kindName[i%3] + `","ref":` + itoa(ref) + `,"role":` + role.J + `}`
+		}
+		return ms, []kv{{"members", arr(items)}}
 	}
 	return nil, nil
 }
@@ -319,6 +482,8 @@ func buildNode(e Elem) (*osm.Node, []kv) {
 		la, lo := e.f(0), e.f(1)
 		n.Lat, n.Lon = la.G, lo.G
 		kvs = append(kvs, kv{"lat", la.J}, kv{"lon", lo.J})
+	} else {
+		kvs = e.z(e.z(kvs, "lat", "0"), "lon", "0.0")
 	}
 	kvs = append(kvs, pre...)
 	kvs = append(kvs, post...)
@@ -366,37 +531,53 @@ func buildChangeset(e Elem) (*osm.Changeset, []kv) {
 		u := e.s(0)
 		c.User = u.G
 		kvs = append(kvs, kv{"user", u.J})
+	} else {
+		kvs = e.z(kvs, "user", `""`)
 	}
 	if e.has(1) {
-		c.UserID = osm.UserID(70 + e.Salt)
+		c.UserID = osm.UserID(e.n(3))
 		kvs = append(kvs, kv{"uid", itoa(int64(c.UserID))})
+	} else {
+		kvs = e.z(kvs, "uid", "0")
 	}
 	if e.has(2) {
 		t := e.t(0)
 		c.CreatedAt = t.G
 		kvs = append(kvs, kv{"created_at", t.J})
+	} else {
+		kvs = e.z(kvs, "created_at", zeroTimeJSON)
 	}
 	if e.has(3) {
 		t := e.t(1)
 		c.ClosedAt = t.G
 		kvs = append(kvs, kv{"closed_at", t.J})
+	} else {
+		kvs = e.z(kvs, "closed_at", zeroTimeJSON)
 	}
 	if e.has(4) {
 		c.Open = true
 		kvs = append(kvs, kv{"open", "true"})
+	} else {
+		kvs = e.z(kvs, "open", "false")
 	}
 	if e.has(5) {
-		c.ChangesCount = 17 + e.Salt
+		c.ChangesCount = int(e.n(4))
 		kvs = append(kvs, kv{"num_changes", itoa(int64(c.ChangesCount))})
+	} else {
+		kvs = e.z(kvs, "num_changes", "0")
 	}
 	if e.has(6) {
 		a, b, cc, d := e.f(0), e.f(1), e.f(2), e.f(3)
 		c.MinLat, c.MaxLat, c.MinLon, c.MaxLon = a.G, b.G, cc.G, d.G
 		kvs = append(kvs, kv{"min_lat", a.J}, kv{"max_lat", b.J}, kv{"min_lon", cc.J}, kv{"max_lon", d.J})
+	} else {
+		kvs = e.z(e.z(e.z(e.z(kvs, "min_lat", "0"), "max_lat", "0"), "min_lon", "0.0"), "max_lon", "0e0")
 	}
 	if e.has(7) {
-		c.CommentsCount = 2 + e.Salt
+		c.CommentsCount = int(e.n(9))
 		kvs = append(kvs, kv{"comments_count", itoa(int64(c.CommentsCount))})
+	} else {
+		kvs = e.z(kvs, "comments_count", "0")
 	}
 	var tk []kv
 	c.Tags, tk = buildTags(e)
@@ -412,6 +593,11 @@ func buildChangeset(e Elem) (*osm.Changeset, []kv) {
 			{Text: "second"},
 		}}
 		kvs = append(kvs, kv{"discussion", `{"comments":[{"user":` + u.J + `,"uid":8,"date":` + t.J + `,"text":` + x.J + `},{"text":"second"}]}`})
+	case 3:
+		// one comment, every key present with its zero value, then one with boundary numbers
+		t := e.t(2)
+		c.Discussion = &osm.ChangesetDiscussion{Comments: []*osm.ChangesetComment{{}, {UserID: osm.UserID(e.n(10)), Timestamp: t.G}}}
+		kvs = append(kvs, kv{"discussion", `{"comments":[{"user":"","uid":0,"date":` + zeroTimeJSON + `,"text":""},{"uid":` + itoa(e.n(10)) + `,"date":` + t.J + `}]}`})
 	}
 	if e.Sub2 == 1 {
 		// a nested change whose block carries its own version, so that the
@@ -430,6 +616,8 @@ func buildNote(e Elem) (*osm.Note, []kv) {
 		la, lo := e.f(0), e.f(1)
 		n.Lat, n.Lon = la.G, lo.G
 		kvs = append(kvs, kv{"lat", la.J}, kv{"lon", lo.J})
+	} else {
+		kvs = e.z(e.z(kvs, "lat", "0"), "lon", "0")
 	}
 	urls := []struct {
 		bit uint
@@ -440,17 +628,25 @@ func buildNote(e Elem) (*osm.Note, []kv) {
 		if e.has(u.bit) {
 			*u.dst = "https://api.example/notes/" + u.key + "?a=1&b=<" + strconv.Itoa(i) + ">"
 			kvs = append(kvs, kv{u.key, `"https://api.example/notes/` + u.key + `?a=1&b=<` + strconv.Itoa(i) + `>"`})
+		} else {
+			kvs = e.z(kvs, u.key, `""`)
 		}
 	}
+	// an absent note date: the library itself writes null for it (Date.MarshalJSON), so documents
+	// with Zero == 1 write null here, and the zero time for the second one
 	if e.has(5) {
 		t := e.t(0)
 		n.DateCreated = osm.Date{Time: t.G}
 		kvs = append(kvs, kv{"date_created", t.J})
+	} else {
+		kvs = e.z(kvs, "date_created", "null")
 	}
 	if e.has(6) {
 		t := e.t(1)
 		n.DateClosed = osm.Date{Time: t.G}
 		kvs = append(kvs, kv{"date_closed", t.J})
+	} else {
+		kvs = e.z(kvs, "date_closed", zeroTimeJSON)
 	}
 	switch e.Sub {
 	case 1:
@@ -459,6 +655,12 @@ func buildNote(e Elem) (*osm.Note, []kv) {
 	case 2:
 		n.Status = osm.NoteClosed
 		kvs = append(kvs, kv{"status", `"closed"`})
+	case 3:
+		// the API also knows hidden notes; NoteStatus is a string type
+		n.Status = osm.NoteStatus("hidden")
+		kvs = append(kvs, kv{"status", `"hidden"`})
+	default:
+		kvs = e.z(kvs, "status", `""`)
 	}
 	switch e.Sub2 {
 	case 1:
@@ -472,6 +674,18 @@ func buildNote(e Elem) (*osm.Note, []kv) {
 		}
 		kvs = append(kvs, kv{"comments", `[{"date":` + t0.J + `,"uid":5,"user":` + u.J + `,"user_url":"https://example/u","action":"opened","text":` + x.J + `,"html":` + h.J + `},` +
 			`{"action":"closed","date":` + t1.J + `,"text":"","html":""}]`})
+	case 3:
+		// the third action, a comment without a date (null, as the library writes it) and one with
+		// every key present and zero
+		t0 := e.t(0)
+		n.Comments = []*osm.NoteComment{
+			{Date: osm.Date{Time: t0.G}, UserID: osm.UserID(e.n(11)), Action: osm.NoteCommentComment, Text: e.s(3).G},
+			{Action: osm.NoteCommentAction("reopened")},
+			{},
+		}
+		kvs = append(kvs, kv{"comments", `[{"date":` + t0.J + `,"uid":` + itoa(e.n(11)) + `,"action":"commented","text":` + e.s(3).J + `,"html":""},` +
+			`{"date":null,"action":"reopened","text":"","html":""},` +
+			`{"date":` + zeroTimeJSON + `,"uid":0,"user":"","user_url":"","action":"","text":"","html":""}]`})
 	}
 	return n, kvs
 }
@@ -483,45 +697,76 @@ func buildUser(e Elem) (*osm.User, []kv) {
 		s := e.s(0)
 		u.Name = s.G
 		kvs = append(kvs, kv{"name", s.J})
+	} else {
+		kvs = e.z(kvs, "name", `""`)
 	}
 	if e.has(1) {
 		s := e.s(1)
 		u.Description = s.G
 		kvs = append(kvs, kv{"description", s.J})
+	} else {
+		kvs = e.z(kvs, "description", `""`)
 	}
 	if e.has(2) {
 		u.Img.Href = "https://example/a.png"
 		kvs = append(kvs, kv{"img", `{"href":"https://example/a.png"}`})
+	} else {
+		kvs = e.z(kvs, "img", `{"href":""}`)
 	}
 	if e.has(3) {
-		u.Changesets.Count = 12 + e.Salt
-		kvs = append(kvs, kv{"changesets", `{"count":` + itoa(int64(12+e.Salt)) + `}`})
+		u.Changesets.Count = int(e.n(0))
+		kvs = append(kvs, kv{"changesets", `{"count":` + itoa(e.n(0)) + `}`})
+	} else {
+		kvs = e.z(kvs, "changesets", `{"count":0}`)
 	}
 	if e.has(4) {
-		u.Traces.Count = 3
-		kvs = append(kvs, kv{"traces", `{"count":3}`})
+		u.Traces.Count = int(e.n(1))
+		kvs = append(kvs, kv{"traces", `{"count":` + itoa(e.n(1)) + `}`})
+	} else {
+		kvs = e.z(kvs, "traces", `{}`)
 	}
 	if e.has(5) {
 		la, lo := e.f(0), e.f(1)
-		u.Home.Lat, u.Home.Lon, u.Home.Zoom = la.G, lo.G, 14
-		kvs = append(kvs, kv{"home", `{"lat":` + la.J + `,"lon":` + lo.J + `,"zoom":14}`})
+		zoom := []int64{14, 0, 19, 1}[e.Salt%4]
+		u.Home.Lat, u.Home.Lon, u.Home.Zoom = la.G, lo.G, int(zoom)
+		kvs = append(kvs, kv{"home", `{"lat":` + la.J + `,"lon":` + lo.J + `,"zoom":` + itoa(zoom) + `}`})
+	} else {
+		kvs = e.z(kvs, "home", `{"lat":0,"lon":0,"zoom":0}`)
 	}
 	if e.has(6) {
-		u.Languages = []string{"en-GB", "de"}
-		kvs = append(kvs, kv{"languages", `["en-GB","de"]`})
+		switch e.Salt % 3 {
+		case 0:
+			u.Languages = []string{"en-GB", "de"}
+			kvs = append(kvs, kv{"languages", `["en-GB","de"]`})
+		case 1:
+			u.Languages = []string{"zh-Hant"}
+			kvs = append(kvs, kv{"languages", `["zh-Hant"]`})
+		case 2:
+			// repeated, empty and non-ASCII entries
+			u.Languages = []string{"de", "de", "", "sr-Latn", "日本"}
+			kvs = append(kvs, kv{"languages", `["de","de","","sr-Latn","日本"]`})
+		}
+	} else {
+		kvs = e.z(kvs, "languages", `[]`)
 	}
 	if e.has(7) {
-		u.Blocks.Received.Count, u.Blocks.Received.Active = 2, 1
-		kvs = append(kvs, kv{"blocks", `{"received":{"count":2,"active":1}}`})
+		u.Blocks.Received.Count, u.Blocks.Received.Active = int(e.n(2)), int(e.n(3))
+		kvs = append(kvs, kv{"blocks", `{"received":{"count":` + itoa(e.n(2)) + `,"active":` + itoa(e.n(3)) + `}}`})
+	} else {
+		kvs = e.z(kvs, "blocks", `{"received":{"count":0,"active":0}}`)
 	}
 	if e.has(8) {
-		u.Messages.Received.Count, u.Messages.Received.Unread, u.Messages.Sent.Count = 9, 4, 6
-		kvs = append(kvs, kv{"messages", `{"received":{"count":9,"unread":4},"sent":{"count":6}}`})
+		u.Messages.Received.Count, u.Messages.Received.Unread, u.Messages.Sent.Count = int(e.n(4)), int(e.n(5)), int(e.n(6))
+		kvs = append(kvs, kv{"messages", `{"received":{"count":` + itoa(e.n(4)) + `,"unread":` + itoa(e.n(5)) + `},"sent":{"count":` + itoa(e.n(6)) + `}}`})
+	} else {
+		kvs = e.z(kvs, "messages", `{"received":{},"sent":{"count":0}}`)
 	}
 	if e.has(9) {
 		t := e.t(0)
 		u.CreatedAt = t.G
 		kvs = append(kvs, kv{"created_at", t.J})
+	} else {
+		kvs = e.z(kvs, "created_at", zeroTimeJSON)
 	}
 	return u, kvs
 }
@@ -576,6 +821,14 @@ func add(o *osm.OSM, v interface{}) {
 // model it). Unknown, ElemPos, WS only matter for documents: unknown top-level
 // keys, the position of "elements" among the keys, compact or indented text.
 // NoElems: documents without an "elements" key at all.
+//
+// Boundary audit. Version 4: the integer number 1 ("1"), 5: the number 0.61 with
+// two decimals ("0.61"), 6: the empty string, written out. Alt selects the values
+// of the four strings and of the bounds: 0 the classic ones; 1 escapes / a blank
+// / text that looks like a literal, bounds all zero; 2 a long string, the text
+// "<nil>" as a legitimate value, NUL, a non-BMP character, bounds at the limits of
+// latitude and longitude; documents only: 3 every absent string (and an absent
+// version) is written as "", 4 as null - absent optional fields stay empty.
 type Top struct {
 	Version int
 	Gen     bool
@@ -587,6 +840,25 @@ type Top struct {
 	ElemPos int
 	WS      int
 	NoElems bool
+	Alt     int
+}
+
+var topAlt = [3][4]sv{
+	{topGen, topCopy, topAttr, topLic},
+	{{`"日本 \"gen\" \\ <&> \u0001"`, "日本 \"gen\" \\ <&> \x01"}, {`" "`, " "}, {`"null"`, "null"}, {`"0.6"`, "0.6"}},
+	{{`"` + longText + `"`, longText}, {`"<nil>"`, "<nil>"}, {`"nul \u0000"`, "nul \x00"}, {`"\ud83d\ude00 😀"`, "\U0001F600 \U0001F600"}},
+}
+
+var topBoundsAlt = [3]osm.Bounds{
+	{MinLat: 1.25, MinLon: -2.5, MaxLat: 3.75, MaxLon: 4},
+	{},
+	{MinLat: -90, MinLon: -180, MaxLat: 90, MaxLon: 180},
+}
+
+var topBoundsAltJSON = [3]string{
+	`{"minlat":1.25,"minlon":-2.5,"maxlat":3.75,"maxlon":4}`,
+	`{"minlat":0,"minlon":0,"maxlat":0.0,"maxlon":0}`,
+	`{"minlat":-90,"minlon":-180,"maxlat":90,"maxlon":180}`,
 }
 
 var (
@@ -606,10 +878,6 @@ func (t Top) optionalCount() int {
 	return n
 }
 
-var topBounds = osm.Bounds{MinLat: 1.25, MinLon: -2.5, MaxLat: 3.75, MaxLon: 4}
-
-const topBoundsJSON = `{"minlat":1.25,"minlon":-2.5,"maxlat":3.75,"maxlon":4}`
-
 // buildTop returns the osm container (without elements) and the top-level
 // keys other than "elements".
 func buildTop(t Top) (*osm.OSM, []kv) {
@@ -626,27 +894,46 @@ func buildTop(t Top) (*osm.OSM, []kv) {
 		// a version string that is not a number literal
 		o.Version = "0.6.1-dev"
 		kvs = append(kvs, kv{"version", `"0.6.1-dev"`})
+	case 4:
+		o.Version = "1"
+		kvs = append(kvs, kv{"version", "1"})
+	case 5:
+		o.Version = "0.61"
+		kvs = append(kvs, kv{"version", "0.61"})
+	case 6:
+		kvs = append(kvs, kv{"version", `""`})
 	}
-	if t.Gen {
-		o.Generator = topGen.G
-		kvs = append(kvs, kv{"generator", topGen.J})
+	absent := ""
+	switch t.Alt {
+	case 3:
+		absent = `""`
+	case 4:
+		absent = "null"
 	}
-	if t.Copy {
-		o.Copyright = topCopy.G
-		kvs = append(kvs, kv{"copyright", topCopy.J})
+	if t.Version == 0 && absent != "" {
+		kvs = append(kvs, kv{"version", absent})
 	}
-	if t.Attr {
-		o.Attribution = topAttr.G
-		kvs = append(kvs, kv{"attribution", topAttr.J})
+	vals := topAlt[0]
+	bi := 0
+	if t.Alt == 1 || t.Alt == 2 {
+		vals, bi = topAlt[t.Alt], t.Alt
 	}
-	if t.Lic {
-		o.License = topLic.G
-		kvs = append(kvs, kv{"license", topLic.J})
+	for i, f := range []struct {
+		on  bool
+		key string
+		dst *string
+	}{{t.Gen, "generator", &o.Generator}, {t.Copy, "copyright", &o.Copyright}, {t.Attr, "attribution", &o.Attribution}, {t.Lic, "license", &o.License}} {
+		if f.on {
+			*f.dst = vals[i].G
+			kvs = append(kvs, kv{f.key, vals[i].J})
+		} else if absent != "" {
+			kvs = append(kvs, kv{f.key, absent})
+		}
 	}
 	if t.Bounds {
-		b := topBounds
+		b := topBoundsAlt[bi]
 		o.Bounds = &b
-		kvs = append(kvs, kv{"bounds", topBoundsJSON})
+		kvs = append(kvs, kv{"bounds", topBoundsAltJSON[bi]})
 	}
 	return o, kvs
 }
